@@ -4,6 +4,7 @@ import (
 	"fmt"
 	"go/token"
 	"go/types"
+	"strings"
 
 	"golang.org/x/tools/go/ssa"
 )
@@ -219,6 +220,8 @@ func runC19(c *Ctx) {
 	// ---- O-4: only keyed hashes are stored ----
 	c.checkIPSetSink()
 
+	// ---- O-1d: a match is counted when the proxy's answer arrived ----
+	c.checkMatchCountedOnAnswer()
 	// ---- O-5: window predicate orientation ----
 	c.checkWindowPredicate()
 	// ---- O-5c: the journal is read to its end or the reader says so ----
@@ -519,5 +522,76 @@ func (c *Ctx) checkWindowPredicate() {
 	}
 	if n < 2 {
 		c.undecided(rule, "Count: window comparisons", p.Pos(fn.Pos()), fmt.Sprintf("only %d time comparisons found; shape not recognised", n))
+	}
+}
+
+// checkMatchCountedOnAnswer: the "matched" figures (Metrics.clientProxyMatchCount
+// and the rounded counter with status=matched) are incremented only on the
+// edge on which the proxy's answer was received: counting at the hand-off would
+// publish matches that timed out, i.e. a figure above the truth by more than
+// the rounding allows.
+func (c *Ctx) checkMatchCountedOnAnswer() {
+	p := c.P
+	rule := "O-1d a match is counted when the answer arrived"
+	co := p.Fn("broker", "(*IPC).ClientOffers")
+	f := p.Field("broker", "Metrics", "clientProxyMatchCount")
+	if co == nil || f == nil {
+		c.undecided(rule, "IPC.ClientOffers / Metrics.clientProxyMatchCount", "-", "anchor does not resolve")
+		return
+	}
+	mk := func(fn *ssa.Function) []Edge {
+		var out []Edge
+		for _, op := range chanOpsIn(p, fn) {
+			if op.Dir == chRecv && op.Class == "Snowflake.answerChannel" && op.Sel != nil {
+				if e, ok := selectCaseEdge(op.Sel, op.State); ok {
+					out = append(out, e)
+				}
+			}
+		}
+		return out
+	}
+	n := 0
+	for _, st := range storesToField(p.FnsIn("broker"), f) {
+		if st.Parent().Name() == "zeroMetrics" {
+			continue
+		}
+		if k, ok := constInt(st.Val); ok && k == 0 {
+			continue
+		}
+		n++
+		ok, where, path := p.guardedUp(st, mk, 2)
+		pos := p.instrPos(st)
+		if where != nil {
+			pos = p.instrPos(where)
+		}
+		c.check(ok && belongsTo(st.Parent(), co), rule, "clientProxyMatchCount is incremented on the answer-received edge only", pos, "", "the match count is incremented on a path that has not received the proxy's answer: polls that time out are published as matches", p.pathString(path)...)
+	}
+	if n == 0 {
+		c.undecided(rule, "increments of clientProxyMatchCount", "-", "none found")
+	}
+	// the rounded counter with status=matched
+	m := 0
+	for _, fn := range p.FnsIn("broker") {
+		for _, ci := range callsIn(fn) {
+			if !strings.HasSuffix(calleeName(ci), "RoundedCounterVec).With") {
+				continue
+			}
+			if _, fld, okf := fieldLoad(callArgs(ci)[0]); !okf || fld.Name() != "ClientPollTotal" {
+				continue
+			}
+			if st, ok := mapLiteralConstValue(callArgs(ci)[1], "status"); !ok || st != "matched" {
+				continue
+			}
+			m++
+			ok, where, path := p.guardedUp(ci, mk, 2)
+			pos := p.instrPos(ci)
+			if where != nil {
+				pos = p.instrPos(where)
+			}
+			c.check(ok && belongsTo(fn, co), rule, "ClientPollTotal{status=matched} is incremented on the answer-received edge only", pos, "", "the rounded matched counter is incremented on a path that has not received the proxy's answer", p.pathString(path)...)
+		}
+	}
+	if m == 0 {
+		c.undecided(rule, "ClientPollTotal{status=matched} increments", "-", "none found")
 	}
 }
